@@ -63,7 +63,7 @@ theorem C13_trace (c : Cfg) (hq : Quiet c) (hacc : argsAccepted c.iv c.to = true
     ∃ tail, cbOnly (runForever c s0).trace =
         cbOnly s0.trace ++ expectedConn c.has c.plan s0.calls s0.now .onOpen (legal ++ [te]) ++ tail ∧
       ∀ x ∈ tail, (∃ a, x.2 = .cb .onError a) ∨ (∃ a, x.2 = .cb .onClose a) := by
-  obtain ⟨sT, w, hat, hw, hnow, htr, hcalls, hrun⟩ :=
+  obtain ⟨sT, w, hat, hw, hnow, htr, hcalls, hrun, _⟩ :=
     run_single c hq hacc hiv hrc s0 legal te hs hp hl hd hleg hterm hfuel (by omega)
   -- the part before the terminating event
   have hpre : cbOnly sT.trace =
